@@ -17,7 +17,7 @@ prefix of the plaintext (`tamper_prefix_seekable`, `tamper_prefix_sequential`). 
 read that ends without error has delivered exactly the plaintext — holds for the repaired seekable
 reader (`tamper_repaired_complete`) and is false for the code as it is: negation witnesses
 `seekable_cut_behind_boundary_reads_short`, `seekable_header_plus_tag_reads_empty`,
-`sequential_cut_behind_boundary_reads_short`, `stored_stream_cut_to_nothing_reads_empty`.
+`seekable_appended_bytes_read_empty`, `sequential_cut_behind_boundary_reads_short`, `stored_stream_cut_to_nothing_reads_empty`.
 -/
 import Pithos.Lemmas.TinkTamper
 
@@ -212,6 +212,17 @@ theorem seekable_header_plus_tag_reads_empty :
 theorem repaired_rejects_both :
     seekRead toyAead (fun _ => 7) true 72 (wstream.take 73) 0 = .err (wpt.take 16) ∧
     seekRead toyAead (fun _ => 7) true 72 (wstream.take 56) 0 = .err [] := by
+  decide
+
+/-- **Witness 2b (seekable.go).** Bytes APPENDED to the stored stream shift the derived plaintext length
+too: a 1-byte part (57 stream bytes, segment size 64) with 15 bytes appended gives 2 segments and plaintext
+length 72 − 40 − 32 = 0 — the part reads as EMPTY without error; the repaired reader fails (its last
+segment is 8 bytes, shorter than a tag). -/
+theorem seekable_appended_bytes_read_empty :
+    seekRead toyAead (fun _ => 7) false 64
+      (tinkStream toyAead 7 (List.replicate 32 1) (List.replicate 7 2) 64 [0x49] ++ List.replicate 15 0x5c) 0 = .ok [] ∧
+    seekRead toyAead (fun _ => 7) true 64
+      (tinkStream toyAead 7 (List.replicate 32 1) (List.replicate 7 2) 64 [0x49] ++ List.replicate 15 0x5c) 0 = .err [] := by
   decide
 
 /-- **Witness 3 (tink-go's sequential reader).** The same cut, one byte behind the first slot: the reader
